@@ -75,7 +75,16 @@ BODIES = {
     "chunkbad": b"zz\r\nabc\r\n0\r\n\r\n",
     "chunknolast": b"3\r\nabc\r\n",
     "chunkspace": b"3 \r\nabc\r\n0\r\n\r\n",
+    "chunk3x3": b"3\r\nabc\r\n3\r\ndef\r\n3\r\nghi\r\n0\r\n\r\n",
+    "abcdefghi": b"abcdefghi",
 }
+POOL["cl9"] = b"Content-Length: 9"
+OPTSETS = [
+    {"stream_large_bodies": "5", "store_streamed_bodies": True},
+    {"stream_large_bodies": "5"},
+    {"body_size_limit": "5"},
+    {"stream_large_bodies": "3", "body_size_limit": "7", "store_streamed_bodies": True},
+]
 SECOND = b"GET /second HTTP/1.1\r\nHost: example.com\r\n\r\n"
 
 EDITS = ["none", "header", "content", "method_path"]
@@ -121,6 +130,13 @@ def request_cases(maxk, full):
     for nb in NAME_BYTES:
         yield {**base, "hs": [nb], "body": "none", "edit": "none", "method": b"GET"}
         yield {**base, "hs": [nb, "cl3"], "body": "abc", "edit": "none"}
+    # body-size options (late switch to streaming with or without storing, size limit) x bodies around the thresholds
+    for opts in OPTSETS:
+        for hs, body in ((["te"], "chunk3x3"), (["cl9"], "abcdefghi"), (["te"], "chunked"), (["cl3"], "abc"), (["expect", "te"], "chunk3x3")):
+            # (no header edit at the request hook here: once a body is streamed its head has already been forwarded,
+            # so such an edit is documented to be too late)
+            for edit in ("none", "stream"):
+                yield {**base, "hs": hs, "body": body, "edit": edit, "opts": opts}
     # well-framed bodies x every addon edit x the headers mitmproxy itself acts on (Expect, Connection)
     for special in ("expect", "close", "ka", "plain"):
         for framing, body in (("cl3", "abc"), ("te", "chunked"), ("te", "chunktrail"), ("tegz", "chunked"), ("cl0", "none")):
@@ -166,6 +182,10 @@ def response_cases(maxk, full):
             yield {"dir": "resp", "method": b"GET", "status": "200", "hs": list(hs), "le": b"\n", "body": body, "eof": True, "edit": "none"}
     for nb in NAME_BYTES:
         yield {"dir": "resp", "method": b"GET", "status": "200", "hs": [nb, "cl3"], "le": b"\r\n", "body": "abc", "eof": True, "edit": "none"}
+    for opts in OPTSETS:
+        for hs, body in ((["te"], "chunk3x3"), (["cl9"], "abcdefghi"), ([], "eof_body"), (["cl3"], "abc")):
+            for edit in ("none", "stream"):
+                yield {"dir": "resp", "method": b"GET", "status": "200", "hs": hs, "le": b"\r\n", "body": body, "eof": True, "edit": edit, "opts": opts}
 
 
 def make_policy(case):
@@ -202,18 +222,21 @@ def make_policy(case):
 def features(case):
     f = {"dir": case["dir"], "hs": "+".join(case["hs"]) or "-", "body": case["body"], "edit": case["edit"],
          "le": "lf" if case["le"] == b"\n" else "crlf"}
+    if case.get("opts"):
+        f["opts"] = "+".join(sorted(case["opts"]))
     if case["dir"] == "resp":
         f["status"] = case["status"]
         f["method"] = case["method"].decode()
     return f
 
 
-def dechunk_equal(msg, flow_part):
-    """compare one http1ref message with a flow snapshot (request or response part)"""
+def dechunk_equal(msg, flow_part, stored=False):
+    """compare one http1ref message with a flow snapshot (request or response part);
+    stored: store_streamed_bodies is on, so even a streamed message's recorded body must equal what was forwarded"""
     diffs = []
     if [tuple(f) for f in msg["fields"]] != [tuple(f) for f in flow_part["fields"]]:
         diffs.append(("fields", msg["fields"], flow_part["fields"]))
-    if not flow_part.get("stream") and flow_part["content"] is not None and msg["body"] != flow_part["content"]:
+    if (stored or not flow_part.get("stream")) and flow_part["content"] is not None and msg["body"] != flow_part["content"]:
         diffs.append(("body", msg["body"], flow_part["content"]))
     if [tuple(f) for f in msg["trailers"]] != [tuple(f) for f in flow_part["trailers"]]:
         diffs.append(("trailers", msg["trailers"], flow_part["trailers"]))
@@ -222,7 +245,7 @@ def dechunk_equal(msg, flow_part):
 
 def run_case(case, t: Tally, verbose=False):
     feats = features(case)
-    w = World(mode=case.get("mode", "regular"), policy=make_policy(case), snap=h1.http_snap, auto_connect=True)
+    w = World(mode=case.get("mode", "regular"), policy=make_policy(case), snap=h1.http_snap, auto_connect=True, opts=case.get("opts"))
     try:
         w.start()
         if case["dir"] == "req":
@@ -277,7 +300,7 @@ def judge_request(case, feats, stream, w, t, verbose):
         want_target = f["path"]
         if m["start"][1] != want_target:
             problems.append(("target", m["start"][1], want_target))
-        problems += dechunk_equal(m, f)
+        problems += dechunk_equal(m, f, stored=bool((case.get("opts") or {}).get("store_streamed_bodies")))
     t.judge("fwd_equals_flows", not problems, feats, case, None, {"problems": problems[:4], "upstream": up[:300]})
 
     # 2. ambiguous / malformed framing or invalid field names are never forwarded
@@ -336,7 +359,7 @@ def judge_response(case, feats, resp, w, t, verbose):
             if int(m["start"][1]) != f["status"]:
                 problems.append(("status", m["start"][1], f["status"]))
             if case["method"] != b"HEAD":
-                problems += dechunk_equal(m, f)
+                problems += dechunk_equal(m, f, stored=bool((case.get("opts") or {}).get("store_streamed_bodies")))
             else:
                 if [tuple(x) for x in m["fields"]] != [tuple(x) for x in f["fields"]]:
                     problems.append(("fields", m["fields"], f["fields"]))
